@@ -199,6 +199,8 @@ def last_obs(base, i):
 
 def tlc_walks(ctx, name, n, depth, bugs, persist, maps="MC_Maps", gmaps="MC_GMaps", paths="MC_Paths"):
     """n behaviours of I sampled by TLC (-simulate), exported through the Export invariant."""
+    import time
+    t0 = time.time()
     mod, cfg = write_cfg(ctx, name, bugs, bugs, ["Export"], persist, True, depth, emul=True, paths=paths, maps=maps, gmaps=gmaps)
     # the Export invariant prints every candidate successor of the last step: far more behaviours than walks
     r = C.tlc_mc(ctx, mod, cfg=cfg, workers=4, simulate="num=%d" % max(3, n // 30), depth=depth + 2, coverage=False, must_cover=False, timeout=900)
@@ -212,6 +214,7 @@ def tlc_walks(ctx, name, n, depth, bugs, persist, maps="MC_Maps", gmaps="MC_GMap
     if not out:
         C.log(r["output"][-3000:])
         raise C.ToolError("TLC exported no behaviour (%s)" % name)
+    C.log("vfs %s: %d behaviours exported by TLC in %.1fs" % (name, len(out), time.time() - t0))
     return out
 
 
@@ -358,6 +361,7 @@ def main_mc(ctx, pid, bugs, persist):
     mod, cfg = write_cfg(ctx, name, bugs, bugs, INV[pid], persist, False, 4 if quick else 6, paths="MC_Paths2" if quick else "MC_Paths",
                          maps="MC_Maps", gmaps="MC_GMaps")
     r = C.tlc_mc(ctx, mod, cfg=cfg, workers=8, timeout=1500, ignore_uncovered=() if persist else ("DoSaveRestore",))
+    C.log("vfs %s: I => A checked on %d distinct states (%d generated) in %.1fs" % (name, r["distinct"], r["generated"], r["wall_s"]))
     if r["violated"]:
         # not explained by a known finding: get the behaviour, replay it, let the trace spec decide
         mod2, cfg2 = write_cfg(ctx, name + "_cx", bugs, bugs, r["violated"], persist, True, 6, emul=True, alias=True)
@@ -500,8 +504,8 @@ def common_run(ctx, pid, persist):
 
 def plain_sources(ctx, bd, abi, present, tag, idpred=True):
     quick = ctx.quick
-    walks = tlc_walks(ctx, "walk_" + tag, 150 if quick else 3000, 6 if quick else 8, present, False)
-    scs = [concretise(w, "tlc-%s-%d" % (tag, i), "tlc-simulate", ctx.seed * 1000 + i, autoprobe=2 if quick else 3, idpred=idpred) for i, w in enumerate(walks)]
+    walks = tlc_walks(ctx, "walk_" + tag, 150 if quick else 600, 6 if quick else 8, present, False)
+    scs = [concretise(w, "tlc-%s-%d" % (tag, i), "tlc-simulate", ctx.seed * 1000 + i, autoprobe=2, idpred=idpred) for i, w in enumerate(walks)]
     rnd = gen_random(ctx, bd, abi, 2 if quick else 10, 300 if quick else 600, "mix", tag)
     rnd += gen_random(ctx, bd, abi, 1 if quick else 3, 330 if quick else 600, "fill", tag + "f")
     return scs, rnd
@@ -603,8 +607,8 @@ def run_c19(ctx):
         quick = ctx.quick
         rnd_py = random.Random(ctx.seed)
         # histories of the model: with per-mount/global mappings (format 2) and without any (format 1 too)
-        walks = tlc_walks(ctx, "walk_c19", 14 if quick else 600, 5 if quick else 7, present, False)
-        walks1 = tlc_walks(ctx, "walk_c19v1", 5 if quick else 200, 5 if quick else 7, present, False, maps="MC_NoMaps", gmaps="MC_NoGMaps")
+        walks = tlc_walks(ctx, "walk_c19", 10 if quick else 60, 5 if quick else 7, present, False)
+        walks1 = tlc_walks(ctx, "walk_c19v1", 4 if quick else 30, 5 if quick else 7, present, False, maps="MC_NoMaps", gmaps="MC_NoGMaps")
         scs = []
         pair = 1
         for i, w in enumerate(walks):
@@ -614,7 +618,7 @@ def run_c19(ctx):
             scs += persist_variants(concretise(w, "tlc-c19v1-%d" % i, "tlc-simulate", ctx.seed * 2000 + i, autoprobe=1), pair, ver=1)
             pair += 1
         # the model's own behaviours with save/restore steps (predictions after the restore included)
-        walksp = tlc_walks(ctx, "walk_c19p", 12 if quick else 500, 6 if quick else 8, present, True)
+        walksp = tlc_walks(ctx, "walk_c19p", 10 if quick else 100, 6 if quick else 8, present, True)
         for i, w in enumerate(walksp):
             if any(s.get("op") == "saverestore" for s in w["steps"]):
                 c = concretise(w, "tlc-c19p-%d" % i, "tlc-simulate", ctx.seed * 3000 + i, autoprobe=1)
@@ -635,11 +639,11 @@ def run_c19(ctx):
                 scs += [dict(c, kind="control", pair=pair, id=c["id"] + "/ctl", steps=cs), dict(c, kind="persist", pair=pair, cut=-2)]
                 pair += 1
         # seeded histories, a few cuts each
-        rnd = gen_random(ctx, bd, abi, 1 if quick else 6, 100 if quick else 400, "churn", "c19")
-        rnd1 = gen_random(ctx, bd, abi, 1 if quick else 4, 60 if quick else 400, "nomap", "c19n")
+        rnd = gen_random(ctx, bd, abi, 1 if quick else 4, 100 if quick else 300, "churn", "c19")
+        rnd1 = gen_random(ctx, bd, abi, 1 if quick else 2, 60 if quick else 200, "nomap", "c19n")
         for s in rnd + rnd1:
             nm = sum(1 for x in s["steps"] if x.get("op") != "req")
-            cuts = sorted(set(rnd_py.sample(range(1, nm + 1), min(2 if quick else 8, nm))))
+            cuts = sorted(set(rnd_py.sample(range(1, nm + 1), min(2 if quick else 6, nm))))
             scs += persist_variants(s, pair, cuts=cuts, ver=1 if s.get("nomap") else 2)
             pair += 1
         allsc = extra_sc + scs
